@@ -202,13 +202,13 @@ VARIANTS += [
     V("c14-v2-ac", "C14", K2, '"AC": {"H": D("0.35"), "M": D("0.61"), "L": D("0.71")},', '"AC": {"H": D("0.35"), "M": D("0.71"), "L": D("0.61")},', rule="C14.weights"),
     V("c14-v4-level", "C14", C4, 'UI_levels = {"N": 0.0, "P": 0.1, "A": 0.2}', 'UI_levels = {"N": 0.0, "P": 0.2, "A": 0.1}', rule="C14.levels"),
     # ---------------------------------------------------------------- C16
-    V("c16-prefix-30-as-31", "C16", INT, 'vector_string = "CVSS:3.0/" + "/".join(vector)', 'vector_string = "CVSS:3.1/" + "/".join(vector)', rule="C16.prefix"),
-    V("c16-no-upper", "C16", INT, "input_value = string_input().strip().upper()", "input_value = string_input().strip()", rule="C16.reach"),
+    V("c16-prefix-30-as-31", "C16", INT, 'vector_string = "CVSS:3.0/" + "/".join(vector)', 'vector_string = "CVSS:3.1/" + "/".join(vector)', rule="C16.semantic"),
+    V("c16-no-upper", "C16", INT, "input_value = string_input().strip().upper()", "input_value = string_input().strip()", rule="C16.semantic"),
     V("c16-append-before-test", "C16", INT, "            if matching:\n                vector.append(metric + \":\" + matching[0])\n                break", "            vector.append(metric + \":\" + input_value)\n            if matching:\n                break", rule="C16"),
-    V("c16-empty-x-for-v2", "C16", INT, '                if version == 2:\n                    input_value = "ND"', '                if version == 3:\n                    input_value = "ND"', rule="C16.accept.empty"),
-    V("c16-tables-v4-as-v3", "C16", INT, "    elif version == 4.0:\n        print(\"Interactive CVSS4 calculator\")\n        from .constants4 import (", "    elif version == 4.0:\n        print(\"Interactive CVSS4 calculator\")\n        from .constants3 import (", rule="C16.tables"),
-    V("c16-always-mandatory", "C16", INT, "    if all_metrics:\n        metrics = METRICS_ABBREVIATIONS.keys()", "    if all_metrics and version != 2:\n        metrics = METRICS_ABBREVIATIONS.keys()", rule="C16.ask.selection"),
-    V("c16-back-to-old-accept", "C16", INT, '            matching = [value for value in values if value.upper() == input_value]\n            if matching:\n                vector.append(metric + ":" + matching[0])\n                break', '            if input_value in values:\n                vector.append(metric + ":" + input_value)\n                break', rule="C16.reach"),
+    V("c16-empty-x-for-v2", "C16", INT, '                if version == 2:\n                    input_value = "ND"', '                if version == 3:\n                    input_value = "ND"', rule="C16.semantic"),
+    V("c16-tables-v4-as-v3", "C16", INT, "    elif version == 4.0:\n        print(\"Interactive CVSS4 calculator\")\n        from .constants4 import (", "    elif version == 4.0:\n        print(\"Interactive CVSS4 calculator\")\n        from .constants3 import (", rule="C16.semantic"),
+    V("c16-always-mandatory", "C16", INT, "    if all_metrics:\n        metrics = METRICS_ABBREVIATIONS.keys()", "    if all_metrics and version != 2:\n        metrics = METRICS_ABBREVIATIONS.keys()", rule="C16.semantic"),
+    V("c16-back-to-old-accept", "C16", INT, '            matching = [value for value in values if value.upper() == input_value]\n            if matching:\n                vector.append(metric + ":" + matching[0])\n                break', '            if input_value in values:\n                vector.append(metric + ":" + input_value)\n                break', rule="C16.semantic"),
     V("c16-message-N", "C16", INT, 'print("Interactive CVSS2 calculator")', 'print("Interactive CVSS 2 calculator")', "silent"),
     # ---------------------------------------------------------------- C17
     V("c17-4-as-3", "C17", CLI, "            elif version == 4.0:\n                cvss_vector = CVSS4(vector_string)", "            elif version == 4.0:\n                cvss_vector = CVSS3(vector_string)", rule="C17.dispatch"),
@@ -267,4 +267,148 @@ VARIANTS += [
     V("n2-v2-as-json-locals", ALL, C2, '            data["temporalScore"] = float(self.temporal_score) if self.temporal_score else 0.0', '            temporal = self.temporal_score\n            data["temporalScore"] = float(temporal) if temporal else 0.0', "silent"),
     V("n2-v3-hash-tuple", ALL, C3, "        return hash(self.clean_vector())", "        return hash((self.clean_vector(),))", "silent"),
     V("n2-v3-eq-tuple-key", ALL, C3, "            return self.clean_vector() == o.clean_vector()", "            return (self.minor_version, self.clean_vector(output_prefix=False)) == (\n                o.minor_version,\n                o.clean_vector(output_prefix=False),\n            )", "silent"),
+    # ------------------------------------------------ third batch of neutral twins (new engine features)
+    V2(
+        "n3-v3-clean-vector-memo-keyed",
+        ALL,
+        [
+            (C3, "        self.original_metrics = None\n", "        self.original_metrics = None\n        self._clean = {}\n"),
+            (
+                C3,
+                '        vector = []\n        for metric in METRICS_ABBREVIATIONS:\n            if metric in self.original_metrics:\n                value = self.original_metrics[metric]\n                if value != "X":\n                    vector.append("{0}:{1}".format(metric, value))\n        if output_prefix:\n            prefix = "CVSS:3.{0}/".format(self.minor_version)\n        else:\n            prefix = ""\n        return prefix + "/".join(vector)',
+                '        key = bool(output_prefix)\n        if key in self._clean:\n            return self._clean[key]\n        vector = []\n        for metric in METRICS_ABBREVIATIONS:\n            if metric in self.original_metrics:\n                value = self.original_metrics[metric]\n                if value != "X":\n                    vector.append("{0}:{1}".format(metric, value))\n        if key:\n            prefix = "CVSS:3.{0}/".format(self.minor_version)\n        else:\n            prefix = ""\n        self._clean[key] = prefix + "/".join(vector)\n        return self._clean[key]',
+            ),
+        ],
+        "silent",
+    ),
+    V2(
+        "n3-k3-table-helper-str",
+        ALL,
+        [
+            (
+                K3,
+                'METRICS_VALUES = {\n',
+                'def _multipliers(**weights):\n    table = {"X": D("1")}\n    table.update((value, D(weight)) for value, weight in weights.items())\n    return table\n\n\nMETRICS_VALUES = {\n',
+            ),
+            (
+                K3,
+                '    "RC": {"X": D("1"), "C": D("1"), "R": D("0.96"), "U": D("0.92")},\n',
+                '    "RC": _multipliers(C="1", R="0.96", U="0.92"),\n',
+            ),
+        ],
+        "silent",
+    ),
+    V("n3-k2-decimal-of-exact-float", ALL, K2, '"TD": {"N": D("0"), "L": D("0.25"), "M": D("0.75"), "H": D("1"), "ND": D("1")}', '"TD": {"N": D(0), "L": D(0.25), "M": D(0.75), "H": D(1), "ND": D(1)}', "silent"),
+    V2(
+        "n3-v3-impact-static-helper",
+        ALL,
+        [
+            (
+                C3,
+                '        if self.scope == "U":\n            self.isc = D("6.42") * self.isc_base\n        elif self.scope == "C":\n            self.isc = D("7.52") * (self.isc_base - D("0.029")) - D("3.25") * (\n                self.isc_base - D("0.02")\n            ) ** D("15")\n        else:  # This should never happen\n            raise RuntimeError(\'Invalid Scope: "{0}"\'.format(self.scope))',
+                '        self.isc = self.impact_sub_score(self.isc_base, self.scope)',
+            ),
+            (
+                C3,
+                "    def compute_isc(self):",
+                '    @staticmethod\n    def impact_sub_score(isc_base, scope):\n        if scope == "U":\n            return D("6.42") * isc_base\n        elif scope == "C":\n            return D("7.52") * (isc_base - D("0.029")) - D("3.25") * (isc_base - D("0.02")) ** D("15")\n        raise RuntimeError(\'Invalid Scope: "{0}"\'.format(scope))\n\n    def compute_isc(self):',
+            ),
+        ],
+        "silent",
+    ),
+    V2(
+        "n3-v3-metrics-defaultdict-get-kept",
+        ALL,
+        [
+            (C3, "import copy\n", "import copy\nfrom collections import defaultdict\n"),
+            (C3, "        self.metrics = {}\n", '        self.metrics = defaultdict(lambda: "X")\n'),
+        ],
+        "silent",
+    ),
+    V2(
+        "n3-v2-severity-table-11",
+        ALL,
+        [
+            (K2, "METRICS_MANDATORY = ", 'SEVERITY_BY_INTEGER_SCORE = ["Low"] * 4 + ["Medium"] * 3 + ["High"] * 4\n\nMETRICS_MANDATORY = '),
+            (C2, "    METRICS_VALUES,\n", "    METRICS_VALUES,\n    SEVERITY_BY_INTEGER_SCORE,\n"),
+            (
+                C2,
+                '            elif score <= D("3.9"):\n                severities.append("Low")\n            elif score <= D("6.9"):\n                severities.append("Medium")\n            else:\n                severities.append("High")',
+                "            else:\n                severities.append(SEVERITY_BY_INTEGER_SCORE[int(score)])",
+            ),
+        ],
+        "silent",
+    ),
+    V2(
+        "n3-v2-max-length-exact",
+        ALL,
+        [
+            (
+                C2,
+                "def round_to_1_decimal(value):",
+                'MAX_VECTOR_LENGTH = (\n    sum(len(metric) + 1 + max(len(v) for v in METRICS_VALUES[metric]) for metric in METRICS_ABBREVIATIONS)\n    + len(METRICS_ABBREVIATIONS)\n    - 1\n)\n\n\ndef round_to_1_decimal(value):',
+            ),
+            (
+                C2,
+                '        fields = self.vector.split("/")\n\n        # Parse fields\n        for field in fields:\n            if field == "":\n                raise CVSS2MalformedError',
+                '        if len(self.vector) > MAX_VECTOR_LENGTH:\n            raise CVSS2MalformedError("Malformed CVSS2 vector, too long")\n\n        fields = self.vector.split("/")\n\n        # Parse fields\n        for field in fields:\n            if field == "":\n                raise CVSS2MalformedError',
+            ),
+        ],
+        "silent",
+    ),
+    V("n3-parser-regex-upper-bound-200", ALL, "cvss/parser.py", "[A-Za-z:/]{26,}", "[A-Za-z:/]{26,200}", "silent"),
+    V("n3-k4-epsilon-float-division", ALL, K4, "EPSILON = 10**-6", "EPSILON = 1.0 / 10**6", "silent"),
+    V(
+        "n3-interactive-table-alias-readonly",
+        ALL,
+        "cvss/interactive.py",
+        "        values = METRICS_VALUE_NAMES[metric]\n        value_names = []\n        for value in values:\n            name = METRICS_VALUE_NAMES[metric][value]\n",
+        "        names_of_metric = METRICS_VALUE_NAMES[metric]\n        values = names_of_metric\n        value_names = []\n        for value in values:\n            name = names_of_metric[value]\n",
+        "silent",
+    ),
+    V2(
+        "n3-v3-get-value-dead-recursion",
+        ALL,
+        [
+            (
+                C3,
+                '        string_value = self.metrics.get(abbreviation, "X")\n        if (abbreviation == "PR" and self.scope == "C") or (',
+                '        string_value = self.metrics.get(abbreviation, "X")\n        if abbreviation in ("MAV", "MAC", "MUI", "MC", "MI", "MA") and string_value == "X":\n            # cannot happen after add_missing_optional(); kept as a safety net\n            return self.get_value(abbreviation[1:])\n        if (abbreviation == "PR" and self.scope == "C") or (',
+            ),
+        ],
+        "silent",
+    ),
+    V2(
+        "n3-interactive-ask-value-helper",
+        ALL,
+        [
+            (
+                "cvss/interactive.py",
+                "def ask_interactively(version=3.1, all_metrics=False, no_colors=False):",
+                'def ask_value(prompt, values, not_defined):\n    """Asks until one of the values is given; returns it as spelled in the specification."""\n    while True:\n        print(prompt, end=" ")\n        answer = string_input().strip().upper() or not_defined\n        matching = [value for value in values if value.upper() == answer]\n        if matching:\n            return matching[0]\n\n\ndef ask_interactively(version=3.1, all_metrics=False, no_colors=False):',
+            ),
+            (
+                "cvss/interactive.py",
+                '        while True:\n            print(METRICS_ABBREVIATIONS[metric] + ":", end=" ")\n            print("/".join(values), end=" ")\n            input_value = string_input().strip().upper()\n            if not input_value:\n                if version == 2:\n                    input_value = "ND"\n                else:\n                    input_value = "X"\n            # Match case-insensitively, but keep the spelling used by the specification\n            # (e.g. "Clear", "Green", "Amber", "Red" of the CVSS4 Provider Urgency metric).\n            matching = [value for value in values if value.upper() == input_value]\n            if matching:\n                vector.append(metric + ":" + matching[0])\n                break\n',
+                '        prompt = METRICS_ABBREVIATIONS[metric] + ": " + "/".join(values)\n        vector.append(metric + ":" + ask_value(prompt, values, "ND" if version == 2 else "X"))\n',
+            ),
+        ],
+        "silent",
+    ),
+    V(
+        "n3-interactive-dict-of-upper",
+        ALL,
+        "cvss/interactive.py",
+        '            matching = [value for value in values if value.upper() == input_value]\n            if matching:\n                vector.append(metric + ":" + matching[0])\n                break\n',
+        '            by_upper = dict((value.upper(), value) for value in values)\n            if input_value in by_upper:\n                vector.append(metric + ":" + by_upper[input_value])\n                break\n',
+        "silent",
+    ),
+    V(
+        "n3-interactive-prefix-table",
+        ALL,
+        "cvss/interactive.py",
+        '    if version == 3.0:\n        vector_string = "CVSS:3.0/" + "/".join(vector)\n    elif version == 3.1:\n        vector_string = "CVSS:3.1/" + "/".join(vector)\n    elif version == 4.0:\n        vector_string = "CVSS:4.0/" + "/".join(vector)\n    else:\n        vector_string = "/".join(vector)\n    return vector_string',
+        '    prefix = ""\n    if version == 3.0:\n        prefix = "CVSS:3.0/"\n    elif version == 3.1:\n        prefix = "CVSS:3.1/"\n    elif version == 4.0:\n        prefix = "CVSS:4.0/"\n    return prefix + "/".join(vector)',
+        "silent",
+    ),
 ]
